@@ -284,6 +284,21 @@ func body(s *simrt.Sim, tier string) {
 			}
 		})
 	}
+	// a Ready caller whose own context ends must get that context's error (or nil if readiness won)
+	if s.Choose(3, "readyctx") == 0 {
+		rctx, rcancel := context.WithCancel(context.Background())
+		early = append(early, "readyc", "readycancel")
+		s.Go("readyc", func() {
+			if err := sp.Ready(rctx); err != nil && !errors.Is(err, context.Canceled) {
+				s.Fail("ready-error", fmt.Sprintf("Ready with a cancelled context returned %v", err))
+			}
+		})
+		s.Go("readycancel", func() {
+			s.Yield("readycancel")
+			rcancel()
+			s.Fault("ctx.cancel")
+		})
+	}
 	for i := 0; i < nget; i++ {
 		i := i
 		gets[i] = &getRes{}
